@@ -7,7 +7,7 @@ d="$(readlink -f "$1")"
 export GOFLAGS=-mod=mod GOPROXY=off GOSUMDB=off GOTOOLCHAIN=local
 wt="$(mktemp -d /tmp/vd.XXXXXX)"; rmdir "$wt"
 trap 'git -C /repo worktree remove --force "$wt" >/dev/null 2>&1; rm -rf "$wt"' EXIT
-git -C /repo worktree add -q "$wt" HEAD || exit 2
+git -C /repo worktree add -q "$wt" "${BASE:-HEAD}" || exit 2
 pkgdir_of() { # target directory from the package clause
   case "$(grep -m1 '^package ' "$1" | awk '{print $2}')" in
     tabular|tabular_test) echo .;; texttable|texttable_test) echo texttable;; csv|csv_test) echo csv;;
